@@ -78,11 +78,14 @@ int main(int argc, char** argv) {
             }
         }
         // (b) impedance models and a signed (non-passive) control, dense asymmetric profiles
-        for (int model = 0; model < 6; model++) {
-            std::string kase = mcx::Desc()("part", "model")("n", n)("N", N)("model", model).str();
+        for (int model = 0; model < 6; model++) for (int place = 0; place < 3; place++) {
+            // the bunch in bucket 0 (plain padding, as the radiation field is built), or alone in bucket 1 / 2 of a spaced train
+            Cfg cp = c; cp.pext = 6.f;
+            if (place) { cp.spacing = n + place; cp.buckets = {(uint32_t)place}; if (N < place * cp.spacing + n) continue; }
+            std::string kase = mcx::Desc()("part", "model")("n", n)("N", N)("model", model)("bucket", place).str();
             if (!R.mine(kase)) continue;
             if (R.out_of_time()) { R.not_completed = kase; goto done; }
-            Rig rig(c);
+            Rig rig(cp);
             std::shared_ptr<Impedance> m;
             const float fmax = 1e12f;
             switch (model) {
@@ -94,7 +97,7 @@ int main(int argc, char** argv) {
             default: { std::vector<impedance_t> z(N); for (unsigned k = 0; k < N; k++) z[k] = k <= N / 2 ? impedance_t(std::fabs(std::sin(1.1f * k)) * 50.f, std::cos(0.3f * k) * 80.f) : impedance_t(0, 0); m = std::make_shared<Impedance>(z, fmax); }
             }
             rig.set_z(m->impedance());
-            std::string keyb = "C07/model=" + std::to_string(model);
+            std::string keyb = "C07/model=" + std::to_string(model) + (place ? "/bucket>0" : "");
             for (int v = 0; v < 4; v++) {
                 std::vector<float> rho(n); for (unsigned x = 0; x < n; x++) rho[x] = 0.1f + std::fabs(std::sin(0.8f * x * (v + 1) + 0.3f * v)) + (x == (unsigned)v % n ? 1.5f : 0.f);
                 check(rig, kase, "dense=" + std::to_string(v), rho, keyb, true, false);
@@ -128,6 +131,6 @@ int main(int argc, char** argv) {
     }
 done:
     R.numbers["worst_parseval_residual_over_tol"] = worst_rel;
-    R.bound_done("n x N x {Re Z = e_k (+ imaginary part), all k < N} x {e_i, e_i+e_j : all i <= j}; 6 impedance models x 4 dense profiles; 2 cut-offs each; 2- and 3-bunch radiation fields x 3 impedances vs single-bunch fields");
+    R.bound_done("n x N x {Re Z = e_k (+ imaginary part), all k < N} x {e_i, e_i+e_j : all i <= j}; 6 impedance models x {bucket 0, 1, 2} x 4 dense profiles; 2 cut-offs each; 2- and 3-bunch radiation fields x 3 impedances vs single-bunch fields");
     return R.finish();
 }
